@@ -39,6 +39,126 @@ type baseFn struct {
 	Loops    []baseLoop     `json:"loops"`
 	Sites    map[string]int `json:"sites,omitempty"`    // how many sites of each kind (Return, calls per callee name) the function has
 	Counters []string       `json:"counters,omitempty"` // variables that are incremented by one somewhere (loop counters)
+	Sig      string         `json:"sig,omitempty"`      // parameter and result types (names aside)
+}
+
+// functionsKey lists (as "locals" names) every function, method and closure of the loaded packages
+// that existed when the baseline was taken.
+const functionsKey = "$functions"
+
+// sigOf: the parameter and result types of a function, without names and without the receiver.
+func sigOf(fn *ssa.Function) string {
+	if o := fn.Origin(); o != nil {
+		fn = o
+	}
+	sig := fn.Signature
+	var b strings.Builder
+	b.WriteString("(")
+	for i := 0; i < sig.Params().Len(); i++ {
+		if i > 0 {
+			b.WriteString(", ")
+		}
+		b.WriteString(types.TypeString(sig.Params().At(i).Type(), nil))
+	}
+	if sig.Variadic() {
+		b.WriteString("...")
+	}
+	b.WriteString(") (")
+	for i := 0; i < sig.Results().Len(); i++ {
+		if i > 0 {
+			b.WriteString(", ")
+		}
+		b.WriteString(types.TypeString(sig.Results().At(i).Type(), nil))
+	}
+	b.WriteString(")")
+	return b.String()
+}
+
+func pkgOfKey(k string) string {
+	// "path/to/pkg.Type.method$1" -> "path/to/pkg"
+	slash := strings.LastIndex(k, "/")
+	dot := strings.Index(k[slash+1:], ".")
+	if dot < 0 {
+		return k
+	}
+	return k[:slash+1+dot]
+}
+
+func parentOfKey(k string) string {
+	if i := strings.Index(k, "$"); i >= 0 {
+		return k[:i]
+	}
+	return ""
+}
+
+// rebindFunctions: a contract is keyed by package, receiver type and function name (closures: the
+// enclosing function and an ordinal). When the function under that key is gone or has another
+// signature than it had when the contract was written, and exactly one function of the same package
+// with that signature is either new (not in the baseline) or - for a closure - another closure of
+// the same enclosing function, the contract follows it: the function is known under the old key
+// from then on (calls of it find the contract, obligations keep their names).
+func (e *Engine) rebindFunctions() []string {
+	if e.bindBase == nil {
+		return nil
+	}
+	known := map[string]bool{}
+	if fs := e.bindBase[functionsKey]; fs != nil {
+		for _, l := range fs.Locals {
+			known[l.Name] = true
+		}
+	}
+	taken := map[*ssa.Function]bool{}
+	var todo []string
+	for _, k := range e.db.SortedKeys() {
+		base := e.bindBase[k]
+		if base == nil || base.Sig == "" {
+			continue
+		}
+		fn := e.fnByKey[k]
+		if fn != nil && fn.Blocks != nil && sigOf(fn) == base.Sig {
+			taken[fn] = true
+			continue
+		}
+		if pk := pkgOfKey(k); e.allPkgs[pk] == nil {
+			continue // a package this run did not load
+		}
+		todo = append(todo, k)
+	}
+	var notes []string
+	all := map[string]*ssa.Function{}
+	for k, f := range e.fnByKey {
+		all[k] = f
+	}
+	for _, k := range todo {
+		base := e.bindBase[k]
+		var cands []*ssa.Function
+		var candKeys []string
+		for fk, f := range all {
+			if f.Blocks == nil || taken[f] || pkgOfKey(fk) != pkgOfKey(k) || sigOf(f) != base.Sig {
+				continue
+			}
+			sameParent := parentOfKey(k) != "" && parentOfKey(fk) == parentOfKey(k)
+			if !known[fk] || sameParent {
+				cands = append(cands, f)
+				candKeys = append(candKeys, fk)
+			}
+		}
+		if len(cands) != 1 {
+			continue
+		}
+		f := cands[0]
+		taken[f] = true
+		if e.keyAlias == nil {
+			e.keyAlias = map[*ssa.Function]string{}
+		}
+		e.keyAlias[f] = k
+		e.fnByKey[k] = f
+		if e.fnByKey[candKeys[0]] == f && candKeys[0] != k {
+			delete(e.fnByKey, candKeys[0])
+		}
+		notes = append(notes, fmt.Sprintf("the function the contract %s was written for is gone or has another signature; %s has that signature and is taken for it", k, candKeys[0]))
+	}
+	return notes
 }
 
 // siteCounts: the number of instructions per site kind, as obligation names count them (`Return#k`,
@@ -183,6 +303,7 @@ func cmdBindings(args []string) {
 				fmt.Fprintln(os.Stderr, "load:", err)
 				os.Exit(2)
 			}
+			os.Setenv("GOCV_NO_REBIND", "1")
 			if err := loadSpecs(e, e.moduleDir); err != nil {
 				fmt.Fprintln(os.Stderr, "contracts:", err)
 				os.Exit(2)
@@ -207,12 +328,27 @@ func cmdBindings(args []string) {
 				}
 			}
 			sort.Slice(hs.Locals, func(i, j int) bool { return hs.Locals[i].Name < hs.Locals[j].Name })
+			fs := out[functionsKey]
+			if fs == nil {
+				fs = &baseFn{}
+				out[functionsKey] = fs
+			}
+			have := map[string]bool{}
+			for _, l := range fs.Locals {
+				have[l.Name] = true
+			}
+			for k, fn := range e.fnByKey {
+				if fn.Blocks != nil && e.inModule(fn) && !have[k] {
+					fs.Locals = append(fs.Locals, baseLocal{Name: k})
+				}
+			}
+			sort.Slice(fs.Locals, func(i, j int) bool { return fs.Locals[i].Name < fs.Locals[j].Name })
 			for _, k := range e.db.SortedKeys() {
 				fn := e.fnByKey[k]
 				if fn == nil || fn.Blocks == nil || out[k] != nil {
 					continue
 				}
-				bf := &baseFn{Locals: localsOf(fn), Sites: siteCounts(fn)}
+				bf := &baseFn{Locals: localsOf(fn), Sites: siteCounts(fn), Sig: sigOf(fn)}
 				for c := range counters(fn) {
 					bf.Counters = append(bf.Counters, c)
 				}
